@@ -833,7 +833,6 @@ class DocutilsRenderer(RendererProtocol):
         # create the section node
         new_section = nodes.section()
         self.add_line_and_source_path(new_section, token)
-        self.copy_attributes(token, new_section, ("class", "id"))
         # if a top level section,
         # then add classes to set default mathjax processing to false
         # we then turn it back on, on a per-node basis
@@ -847,6 +846,8 @@ class DocutilsRenderer(RendererProtocol):
         title_node = nodes.title(token.children[0].content if token.children else "")
         self.add_line_and_source_path(title_node, token)
         new_section.append(title_node)
+        # (after the title, since a duplicate id adds a system message to the section)
+        self.copy_attributes(token, new_section, ("class", "id"))
         # render the heading children into the title
         with self.current_node_context(title_node):
             self.render_children(token)
